@@ -148,6 +148,58 @@ CLAIMED = {
         "note": "trusted: Coq kernel, OS change-time ordering, existence of the packaged platforms.txt; exhaustive for the stated abstraction",
         "technique": "finite-enum Gallina model + destruct/vm_compute; exhaustive subprocess correspondence",
     },
+    "C03": {
+        "category": "proof",
+        "text": "PARTIAL. Coq theorems over a hand-written executable model of get_next_passes' control logic (sign-bit crossings, rise/fall pairing with "
+                "persisting rise, rise<fall guard, argmax slice, culmination bracket), for every sample list and every root oracle meeting its contract: "
+                "rise<fall, time order and disjointness, sample-level soundness, discrete and continuous completeness with explicit flanking hypotheses, "
+                "bracket containment, unimodal maximiser inside the bracket. brentq accuracy (1e-4 deg), the culmination optimiser (0.01 deg) and behaviour "
+                "between samples are oracle hypotheses checked by sampling against a 1-2 s dense scan",
+        "design_ref": "DESIGN.md 5/C03",
+        "note": "trusted: Coq kernel, standard reals axioms in two theorems only, the order/sign-preserving IEEE-bits encoding used by the correspondence; "
+                "scipy brentq / minimize_scalar contracts as Section hypotheses",
+        "technique": "Coq proof over a hand-written Gallina model; correspondence by replaying the implementation's own samples and recorded roots via vm_compute; dense-scan oracle",
+    },
+    "C11": {
+        "category": "proof",
+        "text": "PARTIAL. Coq theorems over a tick-level executable model of get_last_an_time: post-condition, termination for every unit under a Lipschitz "
+                "hypothesis, non-termination without the unit guard, refined result not late under explicit Newton-step hypotheses; truncation/TBUS/"
+                "monotonicity of the orbit number, strict monotonicity of the cubic over [-1, 5] d under stated TLE field bounds, cache purity, the "
+                "crossing-time bracket with IVT under scipy's contract. Agreement of the count with the trajectory's crossings, v_z > 0, 'no later node', "
+                "the Lipschitz bound on z, scipy bisect and binary64 rounding are sampled against a 1 s z scan",
+        "design_ref": "DESIGN.md 5/C11",
+        "note": "trusted: Coq kernel, stdlib real axioms; one known class (eccentric near-equatorial orbits, signature C11:count:eccentric-low-inclination) is "
+                "suppressed by signature with an error cap",
+        "technique": "Coq proof over a hand-written Gallina model; bit-exact replay of recorded (tick, z, shift) samples for all 7 time representations via vm_compute; scan oracle",
+    },
+    "C01": {
+        "category": "proof",
+        "text": "Coq theorems tying the model of OrbitElements/_SGDP4Base/_Keplerians/kep2xyz/get_position regenerated from orbital.py on every run (decision "
+                "trees over every path + every named quantity + the finishing map as a function of E+omega, with generated composition lemmas checked by "
+                "conversion) to a hand transcription of Spacetrack Report #3: on the near-earth-normal path with e0 > 1e-4 every initialisation coefficient, "
+                "the secular/drag/long-period update, the short-period finishing map, the state vectors and the unit conversions equal the report's, and "
+                "every Newton exit satisfies Kepler's equation to 1e-12; the ISS set is proved to be on that path by interval arithmetic. PARTIAL: Newton "
+                "convergence within 10 iterations, the Lipschitz step from the 1e-12 residual to 1 mm, the e0 <= 1e-4 leaves (coefficient variant only) "
+                "and binary64 rounding are sampled: implementation vs an independent evaluation of the report (worst 0.011 mm) and the AIAA vectors",
+        "design_ref": "DESIGN.md 5/C01",
+        "note": "trusted: Coq kernel, stdlib real axioms (+ Uint63/float primitives via Interval in the example), translator (self-checked each run on "
+                "outcome class and state), Spec_SGP4.v transcription (cross-checked by the Gen=Spec proofs: a slip in D4 was caught that way). Known finding "
+                "C01:aiaa:29141 (decaying SL-14 DEB entry of the AIAA set, 0.35 m)",
+        "technique": "Coq proof over source-regenerated model (symbolic tracing with path enumeration, decision trees, generated conversion lemmas); field/ring; independent STR#3 oracle + AIAA vectors",
+    },
+    "C13": {
+        "category": "proof",
+        "text": "Coq theorems over the constructor and propagation decision trees regenerated from orbital.py by exhaustive path enumeration: OrbitalError "
+                "exactly when the element-range guards fail, NotImplementedError exactly for in-range elements with period >= 225 min, simplified mode "
+                "exactly for perigee < 220 km and propagate refuses that mode, near-earth-normal otherwise; the outcome is a total function of the elements; "
+                "every returned state has passed the decay guards and each decayed condition ends in an exception; on a returned state every denominator "
+                "and sqrt argument of the propagation stage is positive (real-number half of 'never NaN'). PARTIAL: constructor denominators and binary64 "
+                "overflow are sampled over the printable range of every field, incl. the accepted high-eccentricity island",
+        "design_ref": "DESIGN.md 5/C13",
+        "note": "trusted: Coq kernel, stdlib real axioms, translator (self-checked each run on every outcome class); guard thresholds are tied to the report's "
+                "period/perigee by C13_period_is_model_period",
+        "technique": "Coq proof by case analysis over source-regenerated decision trees; oracle over the printable field ranges",
+    },
 }
 
 _PENDING = "model and theorems not built yet in this round; not claimed on sampling alone (see DESIGN.md 10)"
